@@ -47,7 +47,14 @@ func (o *Obs) Count(name string, n int64) {
 	o.Counters[name] += n
 }
 
+// MaxViolationsPerCase bounds the violation records one case reports (the rest is only counted).
+const MaxViolationsPerCase = 40
+
 func (o *Obs) Violate(key, format string, a ...any) *Violation {
+	if len(o.Violations) >= MaxViolationsPerCase {
+		o.Count("violations_not_recorded_over_cap", 1)
+		return &Violation{}
+	}
 	o.Violations = append(o.Violations, Violation{Key: key, Desc: fmt.Sprintf(format, a...)})
 	return &o.Violations[len(o.Violations)-1]
 }
